@@ -606,6 +606,9 @@ func (r *sqRun) delegationFacts(q sqQuery, got []interface{}, ethErr error, want
 			r.tag("delegation:fractional-shares")
 		}
 	}
+	if !dfound && q.Who != sqStranger {
+		return // not-found goes to Coq once per validator (the stranger's questions); the oracle judges all of them
+	}
 	pre := "None"
 	if ethErr == nil && len(got) == 2 && sqIsList(got[1], 2) {
 		pre = fmt.Sprintf("(Some (%s, %s))", coqZ(bigOf(got[0].(string))), coqZ(bigOf(got[1].([]interface{})[1].(string))))
